@@ -131,8 +131,13 @@ func genRespSpec(rng *PRNG, name string) respSpec {
 			return map[string]any{"application/json": map[string]any{"schema": map[string]any{"$ref": "#/components/schemas/Pets"}}}, "application/json", "json"
 		case 3:
 			// JSON next to other media types: the JSON flavour is generated and labelled application/json
-			return map[string]any{"application/json": map[string]any{"schema": map[string]any{"$ref": "#/components/schemas/Error"}},
-				"text/csv": map[string]any{"schema": map[string]any{"type": "string"}}, "application/xml": map[string]any{"schema": map[string]any{"type": "string"}}}, "application/json", "json"
+			c3 := map[string]any{"application/json": map[string]any{"schema": map[string]any{"$ref": "#/components/schemas/Error"}},
+				"text/csv": map[string]any{"schema": map[string]any{"type": "string"}}, "application/xml": map[string]any{"schema": map[string]any{"type": "string"}}}
+			if rng.Bool() {
+				// the same JSON flavour listed a second time with a parameter: still one response type
+				c3["application/json; charset=utf-8"] = map[string]any{"schema": map[string]any{"$ref": "#/components/schemas/Error"}}
+			}
+			return c3, "application/json", "json"
 		default:
 			return map[string]any{"application/json": map[string]any{"schema": map[string]any{"$ref": "#/components/schemas/Pet"}}}, "application/json", "json"
 		}
